@@ -1849,7 +1849,7 @@ fn searches_for(pid: &str, strict_d6: bool) -> Vec<(&'static str, (usize, Option
     if ["C01", "C02", "C03", "C04", "C05", "C09", "C10", "C11", "C12", "C13", "C14", "C15", "C16", "C17", "C19"].contains(&pid) {
         let seed: u64 = std::env::var("VERIF_SEED").ok().and_then(|s| s.parse().ok()).unwrap_or(0);
         let budget: usize = std::env::var("VERIF_DIFF_BUDGET").ok().and_then(|s| s.parse().ok()).unwrap_or(100_000);
-        v.push(("differential", search_differential(seed, budget, Some(if pid == "C11" { "C01" } else { pid }))));
+        v.push(("differential", search_differential(seed, budget, Some(pid))));
     }
     if pid == "C08" {
         v.push(("differential_panics", search_differential(0, 100_000, None)));
